@@ -25,7 +25,7 @@ struct Sys { int n; SCrs A; Mat Ad, Pd; std::shared_ptr<hx::ACrs<scalar>> Am; De
 static Sys make_sys(int n, hx::Rng &rng, bool spd, int prec /*0 identity,1 diagonal,2 dense*/) { Sys s; s.n=n; Pattern p=hx::dense_pattern(n,n); hx::Rng r2(rng.s); s.A = spd ? hx::mmatrix(p,r2,1.0) : hx::ddmatrix(p,r2); s.Ad=s.A.dense(); s.Am=hx::to_amgcl(s.A);
     s.Pd.assign(n,Vec(n,scalar(0))); for (int i=0;i<n;++i) for (int j=0;j<n;++j) { if (prec==0) s.Pd[i][j]=scalar(i==j?1:0); else if (prec==1) s.Pd[i][j]= i==j ? scalar(1)/s.Ad[i][i] : scalar(0); else s.Pd[i][j] = i==j ? scalar(1)/s.Ad[i][i] : (spd ? scalar((1+(i+j)%3))/scalar(64) : scalar(((i*3+j)%5)-2)/scalar(32)); }
     if (prec==2 && spd) for (int i=0;i<n;++i) for (int j=0;j<i;++j) s.Pd[i][j]=s.Pd[j][i];
-    s.P.n=n; s.P.P=s.Pd; s.P.A=s.Am; scalar t=var("t",0.375); for (int i=0;i<n;++i) { s.f.push_back(scalar(1+r2.below(5))/scalar(2) + t*scalar(r2.below(7)-3)/scalar(4)); s.x0.push_back(scalar(r2.below(5)-2)/scalar(4) + t*scalar(r2.below(5)-2)/scalar(2)); } return s; }
+    s.P.n=n; s.P.P=s.Pd; s.P.A=s.Am; scalar t=var("t",0.375); for (int i=0;i<n;++i) { int q1=1+r2.below(5), q2=r2.below(7)-3, q3=r2.below(5)-2, q4=r2.below(5)-2; /* sequenced: operand evaluation order differs between the sym and the double build */ s.f.push_back(scalar(q1)/scalar(2) + t*scalar(q2)/scalar(4)); s.x0.push_back(scalar(q3)/scalar(4) + t*scalar(q4)/scalar(2)); } return s; }
 template<class S> static std::tuple<size_t,scalar,Vec> solve(const Sys &s, typename S::params prm, int k) { prm.maxiter=k; prm.tol=scalar(0); prm.abstol=scalar(0); S sol(s.n,prm); NV F=hx::to_numa(s.f), X=hx::to_numa(s.x0); size_t it; scalar res; std::tie(it,res)=sol(*s.Am,s.P,F,X); return std::make_tuple(it,res,hx::to_vec(X)); }
 // Krylov vectors v_j = (M)^j v0
 static std::vector<Vec> krylov(const Mat &M1, const Mat &M2, Vec v, int k) { std::vector<Vec> K; for (int j=0;j<k;++j) { K.push_back(v); v=mv(M1,mv(M2,v)); } return K; }
@@ -75,7 +75,7 @@ int main(int argc, char **argv) {
     hx::assume_note("BiCGStab(L), IDR(s) and LGMRES beyond the first cycle: only finite termination is decided here (their iterates against an independent reference are out of reach: nested radicals / degree growth)");
     for (int n=2;n<=3;++n) for (int k=1;k<=(T?4:3);++k) for (int prec : {0,2}) richardson_case(n,k,prec,rng);
     for (int n=2;n<=(T?4:3);++n) for (int k=1;k<=std::min(n,T?3:2);++k) for (int prec : {0,1,2}) { cg_case(n,k,prec,rng); if (n<=2 || k==1 || T) { bicgstab_case(n,k,false,prec,rng); bicgstab_case(n,k,true,prec,rng); } }
-    for (int n=2;n<=3;++n) for (int k=1;k<=std::min(n,2);++k) for (int prec : {0,2}) { gmres_case("gmres",n,k,2,false,prec,rng); gmres_case("gmres",n,k,2,true,prec,rng); gmres_case("fgmres",n,k,2,false,prec,rng); gmres_case("lgmres",n,k,2,false,prec,rng); if (T) gmres_case("lgmres",n,k,2,true,prec,rng); }
+    for (int n=2;n<=3;++n) for (int k=1;k<=std::min(n,2);++k) for (int prec : {0,2}) { gmres_case("gmres",n,k,2,false,prec,rng); gmres_case("gmres",n,k,2,true,prec,rng); gmres_case("fgmres",n,k,2,false,prec,rng); if (T || !(n==3 && k==2 && prec==2)) gmres_case("lgmres",n,k,2,false,prec,rng); /* n=3,k=2 with the dense preconditioner: 10 M z3 resource units per orthogonality query, thorough tier only */ if (T) gmres_case("lgmres",n,k,2,true,prec,rng); }
     for (int n=2;n<=(T?3:2);++n) for (int ex=0;ex<2;++ex) {
         term_case<sv::cg<BE>>("cg",n,ex,0,rng,[](auto&){}); term_case<sv::bicgstab<BE>>("bicgstab",n,ex,0,rng,[](auto&){}); term_case<sv::gmres<BE>>("gmres",n,ex,0,rng,[&](auto &p){ p.M=n; }); term_case<sv::fgmres<BE>>("fgmres",n,ex,0,rng,[&](auto &p){ p.M=n; });
         if (T || ex) { term_case<sv::lgmres<BE>>("lgmres",n,ex,0,rng,[&](auto &p){ p.M=n; p.K=1; }); term_case<sv::idrs<BE>>("idrs-s1",n,ex,ex?0:n,rng,[](auto &p){ p.s=1; }); term_case<sv::bicgstabl<BE>>("bicgstabl-L1",n,ex,0,rng,[](auto &p){ p.L=1; }); } }
